@@ -3,8 +3,11 @@
 (* Bounded instances of the design WalrusBlocks in the tiny geometry of the             *)
 (* cfg(walrus_verif_tiny) build (2 KiB blocks, 4 units per file, 256-byte header,        *)
 (* MAX_ALLOC 8192, batch cap 6).                                                        *)
-(*   MC_WalrusBlocks_quick / _thorough / _two : refinement (Refines) + the design/contract *)
-(*       invariants, -coverage 1; the same run emits the behaviours (PrintHist).          *)
+(*   MC_WalrusBlocks_quick (1 topic, <= 5 operations), _thorough (<= 6 operations, 2         *)
+(*   restarts), _wide (<= 4 operations over all sizes/budgets/shapes/modes, peeks, rejected    *)
+(*   calls), _two (2 topics, <= 5 operations): refinement (RefinesCex) + the design/contract   *)
+(*   invariants, -coverage 1; quick, wide and two also emit the behaviours (PrintHist).        *)
+(*   MC_WalrusBlocks_sim : long random behaviours (-simulate), 2 topics, <= 16 operations.     *)
 (*   MC_WalrusBlocks_defect_* : one historical defect switched back on; TLC must report    *)
 (*       a violation of RefinesCex and print the behaviour (vacuity guard + regression).  *)
 (* `hist` is hidden by VIEW, so TLC's breadth-first search visits every distinct          *)
@@ -27,7 +30,7 @@ ShapesQ == {<<100, 100>>, <<100, 1500>>}
 ShapesT == {<<100, 100>>, <<300, 1500>>, <<1500, 1500>>, <<0, 100, 300, 1500, 1792, 100>>}
 ShapesBad == {<<100, 100, 100, 100, 100, 100, 100>>}
 FailQ == {<<100, 100>>, <<100, 1500>>}
-FailT == {<<100, 1500>>, <<300, 1500>>, <<1500, 1500>>, <<1500, 1500, 1500>>}
+FailT == {<<100, 100>>, <<100, 1500>>, <<300, 1500>>, <<1500, 1500>>, <<1500, 1500, 1500>>}
 ShapesW == ShapesT \cup ShapesBad
 ShapesTwo == {<<100, 1500>>}
 BudgetsTwo == {0, -1}
